@@ -32,6 +32,20 @@ def direct_cases(tier, seed):
             else:
                 s.append(rng.choice(ALPHA))
         cases.append(("%d %s" % (v, encb(utf8(s))), s, v))
+    # a bracket kept open over several lines whose terminators are MIXED (LF, CR LF), with backspaces reaching back
+    # over a kept line break: what is accumulated must keep every terminator as it was typed
+    for k in range(n // 6):
+        s = [rng.choice([0x28, 0x5b, 0x7b])]
+        closer = {0x28: 0x29, 0x5b: 0x5d, 0x7b: 0x7d}[s[0]]
+        for _ in range(rng.randint(1, 4)):
+            s += [rng.choice([0x61, 0x62, 0xe9, 0x65e5, 0x20]) for _ in range(rng.randint(0, 3))]
+            s += rng.choice([[0x0a], [0x0d, 0x0a], [0x0a], [0x0d, 0x0a], [0x0d]])
+            if rng.random() < 0.25:
+                s += [0x08] * rng.randint(1, 3)
+        s += [rng.choice([0x61, 0x62])] * rng.randint(0, 2) + [closer] + rng.choice([[0x0a], [0x0d, 0x0a]])
+        if rng.random() < 0.5:
+            s += [0x61, 0x0a]
+        cases.append(("1 %s" % encb(utf8(s)), s, True))
     return cases
 
 
